@@ -320,3 +320,157 @@ theorem simplePath_exists {par : α → Option α} {d : α → Nat} {V : α → 
         exact ⟨[a], ⟨rfl, rfl, trivial, by simp⟩, by simp; exact ha⟩
 
 end Scrapli.Forest
+
+/-! ## depth-first search with an arbitrary neighbour order -/
+namespace Scrapli.Forest
+open Scrapli.Priv
+
+variable {α : Type} [DecidableEq α]
+
+/-- whatever `dfs` returns extends the working steps by a walk from `cur` to `tgt` without
+repeated nodes -/
+theorem dfs_sound {par : α → Option α} {nb : α → List α} {ord : List α → List α → List α} {tgt : α}
+    (hnb : ∀ a b, b ∈ nb a → Adj par a b) (hord : ∀ ws l x, x ∈ ord ws l → x ∈ l) :
+    ∀ (fuel : Nat) (cur : α) (steps r : List α), dfs nb ord tgt fuel cur steps = some r →
+      (steps ++ [cur]).Nodup →
+      ∃ q, r = steps ++ q ∧ q.head? = some cur ∧ q.getLast? = some tgt ∧ Walk par q ∧ r.Nodup := by
+  intro fuel
+  induction fuel with
+  | zero =>
+    intro cur steps r h hn
+    simp only [dfs] at h
+    split at h
+    · cases h; rename_i hc; subst hc
+      exact ⟨[cur], rfl, rfl, rfl, trivial, hn⟩
+    · cases h
+  | succ fuel ih =>
+    intro cur steps r h hn
+    simp only [dfs] at h
+    split at h
+    · cases h; rename_i hc; subst hc
+      exact ⟨[cur], rfl, rfl, rfl, trivial, hn⟩
+    · obtain ⟨x, hx, hfx⟩ := List.exists_of_findSome?_eq_some h
+      split at hfx
+      · cases hfx
+      · rename_i hxws
+        have hn' : (steps ++ [cur] ++ [x]).Nodup := by
+          rw [List.nodup_append]
+          refine ⟨hn, by simp, ?_⟩
+          intro a ha b hb
+          simp at hb; subst hb
+          intro hab; subst hab; exact hxws ha
+        obtain ⟨q', hr, hh, hl, hw, hrn⟩ := ih x (steps ++ [cur]) r hfx hn'
+        refine ⟨cur :: q', by rw [hr]; simp, rfl, ?_, ?_, hrn⟩
+        · cases q' with
+          | nil => simp at hh
+          | cons y t => rw [List.getLast?_cons_cons]; exact hl
+        · cases q' with
+          | nil => trivial
+          | cons y t =>
+            simp only [List.head?_cons, Option.some.injEq] at hh
+            subst hh
+            exact ⟨hnb _ _ (hord _ _ _ hx), hw⟩
+
+/-- if a simple path from `cur` to `tgt` avoids the working steps, `dfs` finds some path, for
+every neighbour order, provided the fuel covers the nodes not yet visited -/
+theorem dfs_complete {par : α → Option α} {nb : α → List α} {ord : List α → List α → List α} {tgt : α}
+    (V : List α) (hnb : ∀ a b, a ∈ V → Adj par a b → b ∈ nb a)
+    (hord : ∀ ws l x, x ∈ l → x ∈ ord ws l) :
+    ∀ (fuel : Nat) (cur : α) (steps q : List α), SimplePath par cur tgt q →
+      (∀ v ∈ q, v ∉ steps) → (∀ v ∈ q, v ∈ V) → (∀ v ∈ steps, v ∈ V) → steps.Nodup →
+      V.length ≤ fuel + steps.length + 1 →
+      (dfs nb ord tgt fuel cur steps).isSome := by
+  intro fuel
+  induction fuel with
+  | zero =>
+    intro cur steps q hq hqs hqV hsV hsn hlen
+    simp only [dfs]
+    split
+    · rfl
+    · rename_i hne
+      exfalso
+      obtain ⟨hh, hl, hw, hn⟩ := hq
+      cases q with
+      | nil => simp at hh
+      | cons c t =>
+        simp only [List.head?_cons, Option.some.injEq] at hh; subst hh
+        cases t with
+        | nil => simp at hl; exact hne hl
+        | cons x t' =>
+          have hnd : (x :: c :: steps).Nodup := by
+            have h1 := List.nodup_cons.1 hn
+            refine List.nodup_cons.2 ⟨?_, List.nodup_cons.2 ⟨hqs c (by simp), hsn⟩⟩
+            intro hx
+            rcases List.mem_cons.1 hx with rfl | hx
+            · exact h1.1 (by simp)
+            · exact hqs x (by simp) hx
+          have hsub : (x :: c :: steps) ⊆ V := by
+            intro v hv
+            rcases List.mem_cons.1 hv with rfl | hv
+            · exact hqV _ (by simp)
+            · rcases List.mem_cons.1 hv with rfl | hv
+              · exact hqV _ (by simp)
+              · exact hsV v hv
+          have := List.Nodup.length_le_of_subset hnd hsub
+          simp at this
+          omega
+  | succ fuel ih =>
+    intro cur steps q hq hqs hqV hsV hsn hlen
+    simp only [dfs]
+    split
+    · rfl
+    · rename_i hne
+      obtain ⟨hh, hl, hw, hn⟩ := hq
+      cases q with
+      | nil => simp at hh
+      | cons c t =>
+        simp only [List.head?_cons, Option.some.injEq] at hh; subst hh
+        cases t with
+        | nil => simp at hl; exact absurd hl hne
+        | cons x t' =>
+          rw [List.findSome?_isSome_iff]
+          have h1 := List.nodup_cons.1 hn
+          have hxws : x ∉ steps ++ [c] := by
+            intro hx
+            rcases List.mem_append.1 hx with hx | hx
+            · exact hqs x (by simp) hx
+            · simp at hx; subst hx; exact h1.1 (by simp)
+          refine ⟨x, hord _ _ _ (hnb _ _ (hqV _ (by simp)) hw.1), ?_⟩
+          rw [if_neg hxws]
+          apply ih x (steps ++ [c]) (x :: t') ⟨rfl, by rw [List.getLast?_cons_cons] at hl; exact hl, hw.2, h1.2⟩
+          · intro v hv hvs
+            rcases List.mem_append.1 hvs with hvs | hvs
+            · exact hqs v (List.mem_cons_of_mem _ hv) hvs
+            · simp at hvs; subst hvs; exact h1.1 hv
+          · intro v hv; exact hqV v (List.mem_cons_of_mem _ hv)
+          · intro v hv
+            rcases List.mem_append.1 hv with hv | hv
+            · exact hsV v hv
+            · simp at hv; subst hv; exact hqV _ (by simp)
+          · rw [List.nodup_append]
+            refine ⟨hsn, by simp, ?_⟩
+            intro a ha b hb
+            simp at hb; subst hb
+            intro hab; subst hab; exact hqs _ (by simp) ha
+          · simp; omega
+
+/-- on a forest, for every neighbour order, `dfs` returns exactly the simple path -/
+theorem dfs_unique {par : α → Option α} {d : α → Nat} {nb : α → List α}
+    {ord : List α → List α → List α} {cur tgt : α} {q : List α}
+    (hd : ∀ a p, par a = some p → d a = d p + 1)
+    (V : List α) (hnb : ∀ a b, a ∈ V → (b ∈ nb a ↔ Adj par a b))
+    (hnb' : ∀ a b, b ∈ nb a → Adj par a b)
+    (hord : ∀ ws l x, x ∈ ord ws l ↔ x ∈ l)
+    (hq : SimplePath par cur tgt q) (hqV : ∀ v ∈ q, v ∈ V) :
+    dfs nb ord tgt V.length cur [] = some q := by
+  have hc := dfs_complete (par := par) (nb := nb) (ord := ord) (tgt := tgt) V
+    (fun a b ha h => (hnb a b ha).2 h) (fun ws l x h => (hord ws l x).2 h) V.length cur [] q hq
+    (by simp) hqV (by simp) (by simp) (by simp)
+  obtain ⟨r, hr⟩ := Option.isSome_iff_exists.1 hc
+  obtain ⟨q', hrq, hh, hl, hw, hn⟩ := dfs_sound (par := par) hnb' (fun ws l x h => (hord ws l x).1 h)
+    V.length cur [] r hr (by simp)
+  simp only [List.nil_append] at hrq
+  subst hrq
+  rw [hr, simplePath_unique hd r q cur tgt ⟨hh, hl, hw, hn⟩ hq]
+
+end Scrapli.Forest
